@@ -107,6 +107,11 @@ def build(tier):
         for nested in (0, 1, 2):
             src = e1.make_module(PRELUDE, "h", "item: int", ["-2147483648 <= item <= 2147483647"], f"return channel_transfer_ok({n_pre}, {nested}, item)\n")
             obs.append(Obligation(name=f"transfer_pre{n_pre}_nested{nested}", module_src=src, fn="h", timeout=t, meta={"pre": n_pre, "nested": nested}))
+    for kind in (0, 1, 2):
+        for n_items in ((0, 1, 3) if thorough else (1,)):
+            src = e1.make_module(PRELUDE, "h", "ending: int, item: int", ["0 <= ending <= 6", "-2147483648 <= item <= 2147483647"],
+                                 f"return channel_forgotten_ok({kind}, ending, {n_items}, item)\n")
+            obs.append(Obligation(name=f"forgotten_kind{kind}_items{n_items}", module_src=src, fn="h", timeout=t, meta={"kind": kind, "items": n_items}))
     for nested in (False, True):
         # the id is a key of the (weak) channel table: hashing realises it, so ids come from a catalogue (symbolic choice) ...
         src = e1.make_module(PRELUDE, "h", "k: int", ["0 <= k <= 6"], f"return channel_id_roundtrip_ok([0, 1, 2, 3, 65536, 2147483646, 2147483647][k], {nested})\n")
@@ -130,7 +135,7 @@ def run(tier: str) -> Outcome:
         stubs=["two real gateways over Popen2IO/PipeFile; receiver thread bodies run synchronously",
                "E3 kernel: ChannelFactory.new's read-and-increment is taken as atomic because the extracted AST shows both inside `with self._writelock` (a threading.RLock)"],
         bounds=("E3: parity/freshness induction over unbounded integers (any number of channels); E1: 0/2 (thorough 0/1/3) pre-existing channels, a channel sent "
-                "bare / inside a list / inside a tuple inside a dict, symbolic item; save_Channel/load_channel with the id from a 7-entry catalogue incl. both ends of the range (all ids 0..2**31-1: bug hunting only, hashing realises the id)"),
+                "bare / inside a list / inside a tuple inside a dict, symbolic item; table hygiene: queue / callback / callback+endmarker channel x 7 endings (local close, peer close, drop then peer close, LAST_MESSAGE then close, close then late peer close, peer close with error, drop only; symbolic choice) x 1 (thorough 0/1/3) items; save_Channel/load_channel with the id from a 7-entry catalogue incl. both ends of the range (all ids 0..2**31-1: bug hunting only, hashing realises the id)"),
         outside=["interleavings of concurrent newchannel() callers beyond the lock argument above", "ids above 2**31-1 (more than 10**9 channels on one gateway)",
                  "weak-table entries disappear at the explicit drop/close step (CPython refcounting)"],
         explanation=("E3: the id-allocation kernel (start counts 1 / 2, increment, locking) is read from the real source by AST and the invariant 'count and every issued id "
